@@ -78,6 +78,7 @@ def s_case(draw):
     fault = draw(st.one_of(st.none(), st.none(), st.integers(0, 25), st.integers(0, 60)))
     schedule = draw(st.lists(st.integers(0, 3), max_size=40))
     return {"threads": threads, "fault": fault, "schedule": schedule, "fault_base": draw(st.booleans()),
+            "tail": draw(st.one_of(st.none(), st.fixed_dictionaries({"seed": st.integers(0, 1 << 20), "p": st.sampled_from([2, 4, 8])}))),       # pre-emptions after the explicit schedule is used up
             "fault_len": draw(st.sampled_from([1, 1, 1, 2, 3])),      # how many consecutive calls on the target raise
             "failfast": draw(st.sampled_from(["off", "off", "target", "forwarders", "both"])),
             "scratch_tags": draw(st.booleans())}
@@ -87,7 +88,7 @@ def execute(spec, schedule=None):
     """-> (violations, stats, decisions)"""
     import testtools
     vs = []
-    sched = S.Scheduler(spec["schedule"] if schedule is None else schedule)
+    sched = S.Scheduler(spec["schedule"] if schedule is None else schedule, tail=spec.get("tail") if schedule is None else None)
     sem = S.FakeSemaphore(sched, 1)
     log = []                 # (tid, name, payload)
     calls = [0]
@@ -141,6 +142,7 @@ def execute(spec, schedule=None):
             now = None
             for op in ops:
                 k = op["op"]
+                sched.yield_point("reporter.between-calls")       # the reporting thread's own code (a test body) runs here
                 try:
                     if k == "startTestRun":
                         tagm.start_run()          # the reporter has begun a new run, whatever the target makes of it
